@@ -369,9 +369,16 @@ static void CELLO_NASAN GC_Mark_Stack(struct GC* gc) {
 
 static void GC_Mark_Stack_Fake(struct GC* gc) { }
 
+/* mark bits left behind by a mark phase that was left by an exception */
+static void GC_Unmark(struct GC* gc) {
+  for (size_t i = 0; i < gc->nslots; i++) { gc->entries[i].marked = false; }
+}
+
 void GC_Mark(struct GC* gc) {
   
   if (gc is NULL or gc->nitems is 0) { return; }
+  
+  GC_Unmark(gc);
   
   /* Mark Thread Local Storage */
   mark(current(Thread), gc, (void(*)(var,void*))GC_Mark_And_Recurse);
@@ -504,6 +511,7 @@ static void GC_New(var self, var args) {
 
 static void GC_Del(var self) {
   struct GC* gc = self;
+  GC_Unmark(gc);
   GC_Sweep(gc);
   free(gc->entries);
   free(gc->freelist);
